@@ -187,6 +187,7 @@ func cmdCheck(args []string) {
 	usedContracts := map[string]int{}
 	var warnings []string
 	var trusted []string
+	var ctrAssumed []string
 	for _, vc := range vcs {
 		if vc.Err != nil {
 			continue
@@ -209,6 +210,38 @@ func cmdCheck(args []string) {
 			usedContracts[k] += n
 		}
 		warnings = append(warnings, vc.Engine.warnings...)
+		// what the contract of a function under verification itself assumes: labelled preconditions
+		// (requires[Axx]: assumptions about inputs, never checked at a call site) and options
+		for _, cl := range vc.Contract.byKind("requires") {
+			if strings.HasPrefix(cl.Label, "A") {
+				ctrAssumed = append(ctrAssumed, fmt.Sprintf("precondition %s of %s is an assumption about its inputs (%s)", cl.Label, vc.Contract.Func, cl.Expr))
+			}
+		}
+		var opts []string
+		for o, on := range vc.Contract.Options {
+			if on {
+				opts = append(opts, o)
+			}
+		}
+		sort.Strings(opts)
+		for _, o := range opts {
+			switch o {
+			case "unroll-appends":
+				ctrAssumed = append(ctrAssumed, vc.Contract.Func+": append/copy facts are used for the first 16 elements only (option unroll-appends; fewer hypotheses, sound)")
+			}
+		}
+	}
+	// contracts taken on trust at call sites (option trusted): assumed, never verified
+	for _, k := range keysOf(usedContracts) {
+		id := k
+		if i := strings.Index(id, " ("); i >= 0 {
+			id = id[:i]
+		}
+		if c := w.Contracts[id]; c != nil && c.Options["trusted"] {
+			for _, cl := range c.byKind("ensures") {
+				trusted = append(trusted, fmt.Sprintf("%s.ensures.%s (trusted contract, assumed at its call sites): %s", c.Func, cl.Label, cl.Expr))
+			}
+		}
 	}
 	for _, r := range res {
 		solverMs += r.R.Ms
@@ -335,12 +368,14 @@ func cmdCheck(args []string) {
 			"abstracted_calls":          keysOf(abstracted),
 			"tool_limits":               toolLimits,
 			"warnings":                  dedup(warnings),
+			"trusted_contracts":         dedup(trusted),
+			"contract_assumptions":      dedup(ctrAssumed),
 			"per_obligation":            evs,
 			"samples":                   samples,
 			"back_ends":                 []string{"z3 5.1.0 (z3-new)", "cvc5 1.0.x", "z3 4.8.12", "cvc5 1.0.x --enum-inst"},
 			"integers":                  "Go machine integers as SMT bit-vectors (wrap-around, truncating conversions, signed/unsigned comparison exact)",
 		},
-		"assumptions": assumptionsText(assumed, abstracted),
+		"assumptions": append(append(assumptionsText(assumed, abstracted), dedup(trusted)...), dedup(ctrAssumed)...),
 	}
 	os.MkdirAll(*evdir, 0o755)
 	b, _ := json.MarshalIndent(ev, "", " ")
